@@ -41,11 +41,13 @@ KeyedR(x) == ({ k[3] : k \in { q \in KeySet : q[1] = x } } \cup { t[3] : t \in L
 LikelyScript(x, r) == Maximize(T, x, None, r)[2][2]
 IntR(x) == { r \in KeyedR(x) : LikelyScript(x, r) # LikelyScript(x, None) }
 OneOf(S) == IF S = {} THEN {} ELSE { CHOOSE e \in S : TRUE }
-SAt(x) == IF x = UndL THEN {None, "Latn", "Arab", "Hebr", "Cyrl", "Qabx"}
-          ELSE IF K <= 2 THEN {None, "Qabx"} \cup KeyedS(x) ELSE {None} \cup KeyedS(x)
-RAt(x) == IF x = UndL THEN {None, "PK", "US", "IL", "QX"}
+(* at most two members of S (the deeper the sequences, the fewer atoms: the number of sequences is |calls|^K) *)
+Two(S) == LET a == OneOf(S) IN a \cup OneOf(S \ a)
+SAt(x) == IF x = UndL THEN (IF K <= 2 THEN {None, "Latn", "Arab", "Hebr", "Cyrl", "Qabx"} ELSE {None, "Latn", "Arab"})
+          ELSE IF K <= 2 THEN {None, "Qabx"} \cup KeyedS(x) ELSE {None} \cup Two(KeyedS(x))
+RAt(x) == IF x = UndL THEN (IF K <= 2 THEN {None, "PK", "US", "IL", "QX"} ELSE {None, "PK", "US"})
           ELSE IF K <= 2 THEN {None, "QX"} \cup IntR(x) \cup OneOf(KeyedR(x) \ IntR(x))
-          ELSE {None} \cup IntR(x) \cup OneOf(KeyedR(x) \ IntR(x))
+          ELSE {None} \cup (IF IntR(x) = {} THEN Two(KeyedR(x)) ELSE OneOf(IntR(x)) \cup OneOf(KeyedR(x) \ IntR(x)))
 Calls(x) == OpSet \X SAt(x) \X RAt(x)
 
 Init == fam \in Families /\ hist = <<>>
